@@ -165,8 +165,8 @@ public:
 
 // ------------------------------------------------------------------ operations
 enum OpK { UPD, SELECT, INTERVAL, TOGGLE };
-enum Entry { E_SETPARAMS = 0, E_SETALL, E_SETONE, E_SETVALUES, E_MATCH, E_F };
-static const char* ENAME[6] = {"setParameters", "setAllParametersValues", "setParameterValue", "setParametersValues", "matchParametersValues", "f"};
+enum Entry { E_SETPARAMS = 0, E_SETALL, E_SETONE, E_SETVALUES, E_MATCH, E_F, E_LIVE_SET, E_LIVE_MATCH };
+static const char* ENAME[8] = {"setParameters", "setAllParametersValues", "setParameterValue", "setParametersValues", "matchParametersValues", "f", "setParameters[the wrapped function's own live list]", "matchParametersValues[the wrapper's own live list]"};
 struct OpDesc {
   OpK k; Entry e; int mask; double val[3]; std::vector<int> sel; double h; int flag;
   OpDesc() : k(UPD), e(E_SETPARAMS), mask(0), sel(), h(0), flag(0) { val[0] = val[1] = val[2] = 0; }
@@ -220,6 +220,9 @@ static std::vector<OpDesc> histAlphabet(int scheme, int n) {
   for (int v = 0; v < n; ++v) for (double x : V[v]) { OpDesc o; o.k = UPD; o.e = E_SETONE; o.mask = 1 << v; o.val[v] = x; A.push_back(o); }
   addLists(E_SETALL, (1 << n) - 1);
   addLists(E_SETPARAMS, 0); addLists(E_SETVALUES, 0); addLists(E_MATCH, 0); addLists(E_F, 0);
+  // the usual idioms nd.setParameters(f->getParameters()) / nd.matchParametersValues(nd.getParameters()): the argument IS the list the probes
+  // move; every value equals the current one, so the point does not change, the probes still run and must leave everything where it was
+  { OpDesc o; o.k = UPD; o.e = E_LIVE_SET; o.mask = 0; A.push_back(o); o.e = E_LIVE_MATCH; A.push_back(o); }
   for (auto& s : orderedSubsets(n, true)) { OpDesc o; o.k = SELECT; o.sel = s; A.push_back(o); }
   for (double h : {1e-2, 1e-4, 1e-6}) { OpDesc o; o.k = INTERVAL; o.h = h; A.push_back(o); }
   int nflags = scheme == 0 ? 1 : scheme == 1 ? 3 : 2; // two-point offers no second order, five-point no cross derivatives
@@ -358,7 +361,7 @@ struct Sys : vf::SysBase {
         ParameterList pl = makeList(o);
         if (!c.muted) snap();
         for (int v = 0; v < n; ++v) if (o.mask & (1 << v)) pos[v] = o.val[v];
-        lastMask = o.mask; lastWasUpdate = true;
+        lastMask = (o.e == E_LIVE_SET || o.e == E_LIVE_MATCH) ? (1 << n) - 1 : o.mask; lastWasUpdate = true;
         bool raised = false; std::string what; double ret = 0;
         try {
           switch (o.e) {
@@ -368,6 +371,8 @@ struct Sys : vf::SysBase {
             case E_SETVALUES: nd->setParametersValues(pl); break;
             case E_MATCH: nd->matchParametersValues(pl); break;
             case E_F: ret = nd->f(pl); break;
+            case E_LIVE_SET: nd->setParameters(fn->getParameters()); break;
+            case E_LIVE_MATCH: nd->matchParametersValues(nd->getParameters()); break;
           }
         } catch (bpp::Exception& e) { raised = true; what = e.what(); }
         everUpd = true; hU = h; D2U = D2; XU = X;
@@ -536,8 +541,11 @@ struct Sys : vf::SysBase {
 // ------------------------------------------------------------------ E2: one full update on a fresh wrapper, wide grid
 struct Block { int n; uint64_t off, size; std::vector<int> radix; };
 static std::vector<double> gridValues(int v, double h) {
-  if (!std::isfinite(LB[v])) return {-1.5, 0.0, 0.75};
-  return {LB[v], LB[v] + 0.5 * h, LB[v] + 1.5 * h, X0[v], UB[v] - 1.5 * h, UB[v] - 0.5 * h, UB[v]};
+  // 1e-9: a coordinate of tiny non-zero magnitude (a probe step taken relative to |x| alone collapses there)
+  if (!std::isfinite(LB[v])) return {-1.5, 0.0, 0.75, 1e-9};
+  std::vector<double> g = {LB[v], LB[v] + 0.5 * h, LB[v] + 1.5 * h, X0[v], UB[v] - 1.5 * h, UB[v] - 0.5 * h, UB[v]};
+  if (LB[v] < 0 && UB[v] > 0) g.push_back(1e-9);
+  return g;
 }
 // mode 0: setParameters x all variables selected; mode 1: setParameters x every ordered non-empty selection (interval 1e-4 only); mode 2: every entry point x all variables selected
 static void single(vf::Runner& R, int scheme, int mode) {
@@ -557,7 +565,7 @@ static void single(vf::Runner& R, int scheme, int mode) {
     b.radix = {npts, (int)SELS[n].size(), nent, nx, mode == 1 ? 1 : 3, (int)FAM[n].size()};
     b.size = vf::product(b.radix); total += b.size; blocks.push_back(b);
   }
-  std::string name = std::string("single:") + SCH[scheme] + (mode == 2 ? ":entries6:all-selected" : mode == 1 ? ":setParameters:ordered-selections:h1e-4" : ":setParameters:all-selected") + ":polys<=deg5:n<=3:grid7";
+  std::string name = std::string("single:") + SCH[scheme] + (mode == 2 ? ":entries6:all-selected" : mode == 1 ? ":setParameters:ordered-selections:h1e-4" : ":setParameters:all-selected") + ":polys<=deg5:n<=3:grid7+tiny";
   R.space(name, total, [=](uint64_t idx, vf::Case& c) {
     const Block* b = &blocks[0]; for (auto& bb : blocks) if (idx >= bb.off) b = &bb;
     std::vector<int> d = vf::digits(idx - b->off, b->radix);
